@@ -463,16 +463,57 @@ func rulesC04(w *World, r *Report) {
 
 	// R4 late-bound slices
 	nA := 0
+	// the container readers, the function literals they write (the append may sit in
+	// the store closure handed to a shared element loop) and the private helpers that
+	// are only ever called — statically — from those (`growList(holder, list, elem)` =
+	// Append + change): each mapped to the container readers it serves
+	serves := map[*ssa.Function]map[*ssa.Function]bool{}
 	for _, fn := range w.SrcFuncs() {
-		// the container readers and the function literals they write (the append may
-		// sit in the store closure handed to a shared element loop)
-		registers := false
 		for f := fn; f != nil; f = f.Parent() {
 			if len(callsTo(f, decReg)) > 0 {
-				registers = true
+				if serves[fn] == nil {
+					serves[fn] = map[*ssa.Function]bool{}
+				}
+				serves[fn][f] = true
 			}
 		}
-		if !registers {
+	}
+	for changed := true; changed; {
+		changed = false
+		for _, fn := range w.SrcFuncs() {
+			if fn.Parent() != nil || fn.Signature.Recv() != nil || token.IsExported(fn.Name()) || fn == decReg {
+				continue
+			}
+			n := w.CG.Nodes[fn]
+			if n == nil || len(n.In) == 0 {
+				continue
+			}
+			all := true
+			for _, e := range n.In {
+				c, isC := e.Site.(*ssa.Call)
+				if !isC || c.Call.StaticCallee() != fn || e.Caller.Func == nil || serves[e.Caller.Func] == nil {
+					all = false
+				}
+			}
+			if !all {
+				continue
+			}
+			for _, e := range n.In {
+				for o := range serves[e.Caller.Func] {
+					if serves[fn] == nil {
+						serves[fn] = map[*ssa.Function]bool{}
+					}
+					if !serves[fn][o] {
+						serves[fn][o] = true
+						changed = true
+					}
+				}
+			}
+		}
+	}
+	appendReaders := map[*ssa.Function]bool{}
+	for _, fn := range w.SrcFuncs() {
+		if serves[fn] == nil {
 			continue
 		}
 		for _, cs := range w.callSitesIn(fn) {
@@ -480,6 +521,9 @@ func rulesC04(w *World, r *Report) {
 				continue
 			}
 			nA++
+			for o := range serves[fn] {
+				appendReaders[o] = true
+			}
 			ok := false
 			isChange := func(c2 *ssa.Call) bool {
 				return c2.Call.StaticCallee() != nil && fnName(c2.Call.StaticCallee()) == "(*_refHolder).change" && c2.Block() == cs.call.Block()
@@ -520,7 +564,10 @@ func rulesC04(w *World, r *Report) {
 				map[bool]string{true: "the appended slice is passed to holder.change in the same block", false: "after reflect.Append the holder still refers to the old backing array"}[ok])
 		}
 	}
-	r.floor("C04.R4 Append sites in container readers", nA, 2)
+	// floor over the container readers whose growth was examined (typed list, untyped
+	// list), not over Append sites: two readers may grow their slice through one helper
+	_ = nA
+	r.floor("C04.R4 container readers whose Append sites were examined", len(appendReaders), 2)
 	w.ruleHolderChangePX(r, "C04.R4 grown slices are re-announced to their holder")
 	w.ruleRefBinding(r, "C04.R5 references keep identity")
 }
